@@ -1327,3 +1327,419 @@ Corollary commit_order_is_lock_order_init : forall s0 progs sched,
   acq_log (init_cstate s0 progs) sched
   = commit_log (init_cstate s0 progs) sched ++ opt_list (cs_holder (fst (crun (init_cstate s0 progs) sched))).
 Proof. intros. exact (commit_order_is_lock_order sched _ (init_inv s0 progs)). Qed.
+
+(* ------------------------------------------------------------------ *)
+(* Part 2e: C06 (b) — real-time order                                  *)
+(* ------------------------------------------------------------------ *)
+Lemma todo_at_thread st i c rest p : thread_at st i c rest p -> todo_at st i = c :: rest.
+Proof. intros H. unfold todo_at. rewrite H. reflexivity. Qed.
+
+(* a step only ever drops the head of the stepping thread's program *)
+Lemma cstep_spec_todo st i st' o : cstep_spec st i st' o ->
+  exists pre, todo_at st i = pre ++ todo_at st' i.
+Proof.
+  intros H. destruct H; try (exists []; reflexivity); unfold set_prog;
+    try (exists []; rewrite (todo_at_upd _ _ _ _ _ _ H); cbn [th_todo app]; apply (todo_at_thread _ _ _ _ _ H));
+    try (exists [c]; rewrite (todo_at_fin _ _ _ _ _ _ H); apply (todo_at_thread _ _ _ _ _ H)).
+Qed.
+
+Lemma todo_frame st st' j : nth_error (cs_threads st') j = nth_error (cs_threads st) j -> todo_at st' j = todo_at st j.
+Proof. intros H. unfold todo_at. rewrite H. reflexivity. Qed.
+
+Lemma crun_todo sched : forall st j, exists pre, todo_at st j = pre ++ todo_at (fst (crun st sched)) j.
+Proof.
+  induction sched as [|i sched IH]; intros st j; [exists []; reflexivity|].
+  rewrite crun_cons. cbn [fst]. destruct (IH (fst (cstep st i)) j) as [pre2 H2].
+  destruct (Nat.eq_dec j i) as [->|Hne].
+  - destruct (cstep_spec_todo st i _ _ (cstep_spec_holds st i)) as [pre1 H1].
+    exists (pre1 ++ pre2). rewrite H1, H2 at 1. rewrite app_assoc. reflexivity.
+  - exists pre2. rewrite <- H2. symmetry. apply todo_frame, cstep_frame. exact Hne.
+Qed.
+
+Lemma tag_length l : length (tag l) = length l.
+Proof. induction l as [|c l IH]; cbn; auto. Qed.
+
+Lemma tag_app l1 l2 : tag (l1 ++ l2) = map (fun p => (fst p, (snd p + length l2)%nat)) (tag l1) ++ tag l2.
+Proof.
+  induction l1 as [|c l1 IH]; [reflexivity|]. cbn [app tag map fst snd]. rewrite IH, app_length. reflexivity.
+Qed.
+
+(* entries in front of a tagged suffix carry larger indices *)
+Lemma tag_prefix_ge l : forall X m, tag l = X ++ tag m -> forall x, In x X -> (length m <= snd x)%nat.
+Proof.
+  induction l as [|c l IH]; intros X m H x Hx.
+  - destruct X; [destruct Hx|discriminate].
+  - destruct X as [|x0 X]; [destruct Hx|]. cbn [tag app] in H. injection H as H0 H.
+    assert (Hlen : (length m <= length l)%nat).
+    { pose proof (f_equal (@length _) H) as E. rewrite app_length, !tag_length in E. lia. }
+    destruct Hx as [<-|Hx]; [subst x0; exact Hlen|]. eapply IH; eauto.
+Qed.
+
+Lemma done_of_app j s1 : forall o1 s2 o2, length s1 = length o1 ->
+  done_of j (s1 ++ s2) (o1 ++ o2) = done_of j s1 o1 ++ done_of j s2 o2.
+Proof.
+  induction s1 as [|i s1 IH]; intros [|o o1] s2 o2 Hl; try discriminate; [reflexivity|].
+  cbn [app done_of]. rewrite IH by (cbn in Hl; lia). rewrite app_assoc. reflexivity.
+Qed.
+
+Lemma crun_length sched : forall st, length (snd (crun st sched)) = length sched.
+Proof. induction sched as [|i sched IH]; intros st; [reflexivity|]. rewrite crun_cons. cbn. rewrite IH. reflexivity. Qed.
+
+Lemma last_two_maps {A B C} (f : A -> B) (g : A -> C) (l : list A) b x c y :
+  map f l = b ++ [x] -> map g l = c ++ [y] -> exists e, In e l /\ f e = x /\ g e = y.
+Proof.
+  intros Hf Hg. destruct l as [|a l] using rev_ind; [destruct b; discriminate|].
+  rewrite map_app in Hf, Hg. cbn in Hf, Hg. apply app_inj_tail in Hf. apply app_inj_tail in Hg.
+  exists a. split; [apply in_or_app; right; left; reflexivity|]. split; [apply Hf|apply Hg].
+Qed.
+
+(* C06 (b): if request A answers (ODone) before request B is started (B still at PNew), then A's
+   log entry precedes B's: the log splits as La ++ Lb with A's entry in La and no entry of B
+   (nor of any later request of B's thread) in La.  Entries are named by (thread, ev_rem). *)
+Theorem conc_realtime : forall s0 progs sa i sb j cA restA pA cB restB r,
+  no_gc_progs progs ->
+  let st0 := init_cstate s0 progs in
+  let st1 := fst (crun st0 sa) in
+  thread_at st1 i cA restA pA -> snd (cstep st1 i) = ODone r ->
+  let st2 := fst (crun st0 (sa ++ i :: sb)) in
+  thread_at st2 j cB restB PNew ->
+  forall sc,
+  exists La Lb ea,
+    lin_log st0 ((sa ++ i :: sb) ++ sc) = La ++ Lb
+    /\ In ea La /\ ev_tid ea = i /\ ev_tag ea = (cA, length restA) /\ ev_resp ea = r
+    /\ forall eb, In eb La -> ev_tid eb = j -> (length restB < ev_rem eb)%nat.
+Proof.
+  intros s0 progs sa i sb j cA restA pA cB restB r Hng st0 st1 HatA Hdone st2 HatB sc.
+  exists (lin_log st0 (sa ++ i :: sb)), (lin_log st2 sc).
+  assert (Hinv0 : conc_inv st0) by apply init_inv. assert (Hng0 : no_gc st0) by (apply init_no_gc; exact Hng).
+  (* A's entry: the last entry of thread i in the log through A's ODone step *)
+  assert (HA : exists ea, In ea (lin_log st0 (sa ++ [i])) /\ ev_tid ea = i /\ ev_tag ea = (cA, length restA) /\ ev_resp ea = r).
+  { pose proof (lin_log_threads (sa ++ [i]) st0 i Hinv0 Hng0) as [T2 T3]. cbn zeta in T2, T3.
+    unfold st0 in T2, T3. rewrite init_pending in T2. rewrite init_unlin in T3. fold st0 in T2, T3.
+    rewrite crun_app in T2, T3. cbn [fst snd] in T2, T3. fold st1 in T2, T3.
+    rewrite crun_cons in T2, T3. cbn [crun fst snd] in T2, T3.
+    rewrite done_of_app in T2 by (rewrite crun_length; reflexivity). cbn [done_of] in T2. rewrite Nat.eqb_refl, Hdone in T2.
+    cbn [done_resp app] in T2.
+    assert (Hafter : pending (fst (cstep st1 i)) i = [] /\ unlin (fst (cstep st1 i)) i = restA).
+    { pose proof (crun_inv sa st0 Hinv0) as Hinv1. pose proof (crun_no_gc sa st0 Hng0) as Hng1. fold st1 in Hinv1, Hng1.
+      destruct (step_event_spec st1 i Hinv1 Hng1) as [[He Hc]|[c [rest [p [r' [ex [Hat [He [P1 [U1 [U2 [Hsrv [Hex Hd]]]]]]]]]]]]].
+      - destruct Hc as [Hc|[Hc|[[Hc _]|[r' [_ [Q1 [Q2 [Q3 _]]]]]]]]; try congruence.
+        split; auto. rewrite Q3, (unlin_at _ _ _ _ _ HatA). rewrite (pending_at _ _ _ _ _ HatA) in Q1. rewrite Q1. reflexivity.
+      - unfold thread_at in Hat, HatA. rewrite HatA in Hat. injection Hat as <- <- <-.
+        destruct Hd as [[_ Q]|[Q _]]; [auto|congruence]. }
+    destruct Hafter as [Q1 Q2]. rewrite Q1 in T2. rewrite Q2 in T3. rewrite !app_nil_r in T2.
+    destruct (crun_todo sa st0 i) as [pre Hpre]. fold st1 in Hpre. unfold st0 in Hpre. rewrite init_todo in Hpre.
+    rewrite (todo_at_thread _ _ _ _ _ HatA) in Hpre. rewrite Hpre in T3.
+    replace (pre ++ cA :: restA) with ((pre ++ [cA]) ++ restA) in T3 by (rewrite <- app_assoc; reflexivity).
+    rewrite tag_app in T3. apply app_inv_tail in T3. rewrite tag_app, map_app in T3. cbn [tag map fst snd length] in T3.
+    destruct (last_two_maps _ _ _ _ _ _ _ T2 T3) as [ea [Hin [E1 E2]]]. exists ea.
+    unfold lin_of in Hin. apply filter_In in Hin. destruct Hin as [Hin Ht]. apply Nat.eqb_eq in Ht.
+    repeat split; auto. }
+  destruct HA as [ea [Hin [Ht [Hg Hr]]]]. exists ea.
+  split; [apply lin_log_app|]. split.
+  { replace (sa ++ i :: sb) with ((sa ++ [i]) ++ sb) by (rewrite <- app_assoc; reflexivity).
+    rewrite lin_log_app. apply in_or_app. left. exact Hin. }
+  split; [exact Ht|]. split; [exact Hg|]. split; [exact Hr|].
+  (* B's thread: everything logged so far stands in front of B in the program *)
+  intros eb Hinb Htb.
+  pose proof (lin_log_threads (sa ++ i :: sb) st0 j Hinv0 Hng0) as [_ T3]. cbn zeta in T3. fold st2 in T3.
+  rewrite (unlin_at _ _ _ _ _ HatB) in T3. cbn [pending_of final_acc length skipn] in T3.
+  unfold st0 in T3. rewrite init_unlin in T3. fold st0 in T3. symmetry in T3.
+  pose proof (tag_prefix_ge _ _ _ T3 (ev_tag eb)) as G. cbn [length] in G.
+  assert (Hx : In (ev_tag eb) (map ev_tag (lin_of j (lin_log st0 (sa ++ i :: sb))))).
+  { apply in_map. unfold lin_of. apply filter_In. split; auto. apply Nat.eqb_eq. exact Htb. }
+  specialize (G Hx). cbn in G. lia.
+Qed.
+
+(* ------------------------------------------------------------------ *)
+(* Part 2f: C06 (e) failure atomicity, (f) no torn reads               *)
+(* ------------------------------------------------------------------ *)
+(* (e) sequential: EVERY request that is answered with an error leaves the whole server — all
+   tables, all rows — exactly as it was (MutateRow, CheckAndMutateRow, ReadModifyWriteRow, and all
+   the others; MutateRows as a whole, its entries below) *)
+Theorem failure_atomic : forall s c, br_code (snd (step s c)) <> cOK -> fst (step s c) = s.
+Proof.
+  intros s [r now coins]. destruct r; unfold step; cbn [cl_req cl_now cl_coins];
+    repeat match goal with
+           | |- context [match ?x with _ => _ end] => destruct x eqn:?
+           end; cbn [fst snd ok fail br_code]; intros H; try reflexivity; exfalso; apply H; reflexivity.
+Qed.
+
+Corollary failure_atomic_row : forall s c tbl key, br_code (snd (step s c)) <> cOK ->
+  option_map (fun t => get_row t key) (alookup tbl (fst (step s c)))
+  = option_map (fun t => get_row t key) (alookup tbl s).
+Proof. intros s c tbl key H. rewrite (failure_atomic s c H). reflexivity. Qed.
+
+From Emu.BT Require Import CellSpec CellProofs MutateProofs RmwProofs.
+
+(* MutateRows is the fold of [mrows_step] over its entries ... *)
+Theorem step_mutate_rows : forall s tbl entries now coins,
+  step s (mkCall (BMutateRows tbl entries) now coins) =
+  match alookup tbl s with
+  | None => (s, fail cNotFound)
+  | Some t => (set_table s tbl (fst (fold_left (mrows_step now) entries (t, []))),
+               ok (YEntries (snd (fold_left (mrows_step now) entries (t, [])))))
+  end.
+Proof.
+  intros. unfold step. cbn [cl_req cl_now cl_coins]. destruct (alookup tbl s) as [t|]; [|reflexivity].
+  unfold mrows_step. destruct (fold_left _ entries (t, [])) as [t' codes]. reflexivity.
+Qed.
+
+(* ... and an entry whose status is not OK leaves the table exactly as the previous entries left it *)
+Theorem mutate_rows_entry_atomic : forall now ta cs e,
+  exists code, snd (mrows_step now (ta, cs) e) = cs ++ [code]
+               /\ (code <> cOK -> fst (mrows_step now (ta, cs) e) = ta).
+Proof.
+  intros now ta cs e. unfold mrows_step.
+  destruct (apply_mutations (t_fams ta) now (get_row ta (fst e)) (snd e)).
+  - exists cOK. split; [reflexivity|]. intros H. exfalso. apply H. reflexivity.
+  - exists cInternal. split; reflexivity.
+Qed.
+
+Lemma run_app s cs1 : forall cs2,
+  run s (cs1 ++ cs2) = (fst (run (fst (run s cs1)) cs2), snd (run s cs1) ++ snd (run (fst (run s cs1)) cs2)).
+Proof.
+  revert s. induction cs1 as [|c cs1 IH]; intros s cs2.
+  - cbn. destruct (run s cs2); reflexivity.
+  - rewrite <- app_comm_cons, !run_cons, IH. reflexivity.
+Qed.
+
+Lemma run_nth cs : forall s k c, nth_error cs k = Some c ->
+  nth_error (snd (run s cs)) k = Some (snd (step (fst (run s (firstn k cs))) c)).
+Proof.
+  induction cs as [|c0 cs IH]; intros s [|k] c H; cbn in H; try discriminate.
+  - injection H as ->. rewrite run_cons. reflexivity.
+  - rewrite run_cons. cbn [snd nth_error firstn]. rewrite run_cons. cbn [fst]. apply IH. exact H.
+Qed.
+
+Lemma forall2_nth {A B} (R : A -> B -> Prop) l1 : forall l2 k a, Forall2 R l1 l2 -> nth_error l1 k = Some a ->
+  exists b, nth_error l2 k = Some b /\ R a b.
+Proof.
+  induction l1 as [|x l1 IH]; intros l2 [|k] a H Hn; cbn in Hn; try discriminate; inversion H; subst.
+  - injection Hn as ->. eexists. split; [reflexivity|auto].
+  - cbn. eauto.
+Qed.
+
+(* (f) no torn read: the answer of every log entry (reads that ran in one section, writes, ...)
+   is the answer of the sequential [step] in the state left by the serial run of the log entries
+   before it — a committed prefix *)
+Theorem no_torn_read : forall s0 progs sched, no_gc_progs progs ->
+  let L := lin_log (init_cstate s0 progs) sched in
+  forall k e, nth_error L k = Some e -> ev_exact e = true ->
+    ev_resp e = snd (step (fst (run s0 (map ev_call (firstn k L)))) (ev_call e)).
+Proof.
+  intros s0 progs sched Hng L k e Hk Hex.
+  pose proof (conc_serializable s0 progs sched Hng) as [_ [H2 _]]. cbn zeta in H2. fold L in H2.
+  destruct (forall2_nth _ _ _ _ _ H2 Hk) as [r [Hr HR]]. rewrite (HR Hex).
+  assert (Hc : nth_error (map ev_call L) k = Some (ev_call e)) by (rewrite nth_error_map, Hk; reflexivity).
+  rewrite (run_nth _ s0 k _ Hc) in Hr. injection Hr as <-. rewrite firstn_map. reflexivity.
+Qed.
+
+(* ------------------------------------------------------------------ *)
+(* Part 2g: C06 (d) — two conditional writes                           *)
+(* ------------------------------------------------------------------ *)
+Lemma step_event_thread st i e : step_event st i = Some e -> (i < length (cs_threads st))%nat.
+Proof.
+  unfold step_event. destruct (nth_error (cs_threads st) i) eqn:E; [|discriminate]. intros _.
+  apply nth_error_Some. congruence.
+Qed.
+
+Lemma cstep_threads_length st i : length (cs_threads (fst (cstep st i))) = length (cs_threads st).
+Proof. apply (cstep_spec_frame st i _ _ (cstep_spec_holds st i)). Qed.
+
+Lemma lin_log_tid_lt sched : forall st e, In e (lin_log st sched) -> (ev_tid e < length (cs_threads st))%nat.
+Proof.
+  induction sched as [|i sched IH]; intros st e H; [destruct H|]. cbn [lin_log] in H. apply in_app_or in H.
+  destruct H as [H|H].
+  - destruct (step_event st i) as [e0|] eqn:E; [|destruct H]. destruct H as [<-|[]].
+    rewrite (step_event_tid _ _ _ E). eapply step_event_thread; eauto.
+  - rewrite <- (cstep_threads_length st i). apply IH. exact H.
+Qed.
+
+Lemma filter_compl_length {A} (p q : A -> bool) l : (forall x, In x l -> p x = negb (q x)) ->
+  length l = (length (filter p l) + length (filter q l))%nat.
+Proof.
+  induction l as [|x l IH]; intros H; [reflexivity|]. cbn [filter].
+  rewrite (H x (or_introl eq_refl)). specialize (IH (fun y Hy => H y (or_intror Hy))).
+  destruct (q x); cbn [negb length]; lia.
+Qed.
+
+Lemma split_two {A} (p q : A -> bool) l a b : (forall x, In x l -> p x = negb (q x)) ->
+  filter p l = [a] -> filter q l = [b] -> l = [a; b] \/ l = [b; a].
+Proof.
+  intros Hc Hp Hq. pose proof (filter_compl_length p q l Hc) as Hl. rewrite Hp, Hq in Hl. cbn in Hl.
+  destruct l as [|x [|y [|z l]]]; try discriminate.
+  pose proof (Hc x (or_introl eq_refl)) as Hx. pose proof (Hc y (or_intror (or_introl eq_refl))) as Hy.
+  cbn [filter] in Hp, Hq. destruct (q x), (q y); cbn [negb] in Hx, Hy; rewrite Hx, Hy in Hp; try discriminate.
+  - injection Hp as <-. injection Hq as <-. auto.
+  - injection Hp as <-. injection Hq as <-. auto.
+Qed.
+
+Lemma singleton_tag (l : list event) u c : map ev_tag l ++ u = [(c, O)] -> forall r, In r (map ev_resp l) ->
+  exists e, l = [e] /\ ev_call e = c /\ ev_resp e = r.
+Proof.
+  intros H r Hr. destruct l as [|e [|e' l]]; [destruct Hr| |discriminate].
+  destruct Hr as [<-|[]]. cbn in H. injection H as H1 H2 H3. exists e. auto.
+Qed.
+
+(* (d) two conditional writes (any two requests that are neither reads nor GC) running
+   concurrently: if, serially in either order, the second does not answer "matched" once the
+   first has, then in NO schedule both answer "matched" *)
+Theorem conc_cam_exclusive : forall s0 cA cB sched rA rB,
+  is_gc (cl_req cA) = false -> is_gc (cl_req cB) = false ->
+  is_read (cl_req cA) = false -> is_read (cl_req cB) = false ->
+  (br_body (snd (step s0 cA)) = YMatched true -> br_body (snd (step (fst (step s0 cA)) cB)) <> YMatched true) ->
+  (br_body (snd (step s0 cB)) = YMatched true -> br_body (snd (step (fst (step s0 cB)) cA)) <> YMatched true) ->
+  let outs := snd (crun (init_cstate s0 [[cA]; [cB]]) sched) in
+  In rA (done_of 0 sched outs) -> In rB (done_of 1 sched outs) ->
+  ~ (br_body rA = YMatched true /\ br_body rB = YMatched true).
+Proof.
+  intros s0 cA cB sched rA rB GA GB RA RB H1 H2 outs HA HB [MA MB].
+  assert (Hng : no_gc_progs [[cA]; [cB]]) by (repeat constructor; auto).
+  assert (Hnr : no_req_progs is_read [[cA]; [cB]]) by (repeat constructor; auto).
+  pose proof (conc_serializable s0 _ sched Hng) as [_ [_ T]]. cbn zeta in T.
+  pose proof (conc_serializable_writes s0 _ sched Hng Hnr) as W. cbn zeta in W.
+  rewrite (lin_log_done sched _ (init_inv s0 _) (init_no_req _ s0 _ Hnr)) in T.
+  set (D := done_log (init_cstate s0 [[cA]; [cB]]) sched) in *.
+  destruct (T 0%nat) as [T2a T3a]. destruct (T 1%nat) as [T2b T3b]. cbn [nth tag length] in T3a, T3b.
+  fold outs in T2a, T2b.
+  destruct (singleton_tag _ _ _ T3a rA) as [ea [Ea [Ca Ra]]]; [rewrite T2a; apply in_or_app; auto|].
+  destruct (singleton_tag _ _ _ T3b rB) as [eb [Eb [Cb Rb]]]; [rewrite T2b; apply in_or_app; auto|].
+  assert (Hc : forall x, In x D -> Nat.eqb (ev_tid x) 0 = negb (Nat.eqb (ev_tid x) 1)).
+  { intros x Hx. unfold D in Hx. rewrite <- (lin_log_done sched _ (init_inv s0 _) (init_no_req _ s0 _ Hnr)) in Hx.
+    apply lin_log_tid_lt in Hx. cbn in Hx. destruct (ev_tid x) as [|[|n]]; try reflexivity. lia. }
+  destruct (split_two _ _ D ea eb Hc Ea Eb) as [E|E]; rewrite E in W; cbn [map] in W;
+    rewrite Ca, Cb, Ra, Rb, !run_cons in W; cbn [fst snd run] in W; injection W as _ W1 W2.
+  - apply H1; congruence.
+  - apply H2; congruence.
+Qed.
+
+(* ------------------------------------------------------------------ *)
+(* Part 2h: C06 (c) — concurrent increments add up                     *)
+(* ------------------------------------------------------------------ *)
+Definition is_incr (tbl key fam q : bytes) (c : call) : Prop :=
+  cl_req c = BReadModifyWrite tbl key [RIncrement fam q 1].
+
+(* the newest cell of column (fam, q) of row [key] holds an 8-byte counter of value v *)
+Definition counter_at (s : server) (tbl key fam q : bytes) (v : Z) : Prop :=
+  exists t c r, alookup tbl s = Some t /\ known_family (t_fams t) fam = true
+    /\ CellSpec.cells_of (get_row t key) fam q = c :: r /\ length (c_val c) = 8%nat /\ be64_decode (c_val c) = v.
+
+Lemma wrap64_add_l a b : wrap64 (wrap64 a + b) = wrap64 (a + b).
+Proof.
+  unfold wrap64. f_equal.
+  replace ((a + 9223372036854775808) mod 18446744073709551616 - 9223372036854775808 + b + 9223372036854775808)
+    with ((a + 9223372036854775808) mod 18446744073709551616 + b) by lia.
+  rewrite Zplus_mod_idemp_l. f_equal. lia.
+Qed.
+
+Lemma incr_step s tbl key fam q v c : server_ok s -> is_incr tbl key fam q c -> counter_at s tbl key fam q v ->
+  server_ok (fst (step s c)) /\ counter_at (fst (step s c)) tbl key fam q (wrap64 (v + 1)).
+Proof.
+  intros Hs Hc [t [c0 [r0 [Ht [Hk [Hcells [Hlen Hv]]]]]]]. destruct c as [rq now coins]. unfold is_incr in Hc. cbn [cl_req] in Hc. subst rq.
+  pose proof (server_ok_lookup _ _ _ Hs Ht) as Htok.
+  pose proof (table_ok_get_row_fams t key Htok) as Hrow.
+  set (rule := RIncrement fam q 1).
+  assert (Hnc : rmw_new_cell (t_fams t) now rule (get_row t key)
+                = Some (mkCell (rmw_ts now (c0 :: r0)) (incr_value (c_val c0) 1) [])).
+  { unfold rmw_new_cell, rule. cbn [rule_target]. rewrite Hk, Hcells. cbn [rmw_value]. rewrite Hlen. reflexivity. }
+  set (nc := mkCell (rmw_ts now (c0 :: r0)) (incr_value (c_val c0) 1) []) in *.
+  assert (Hrules : rmw_rules (t_fams t) now [rule] (get_row t key) [] = Some (rmw_write (get_row t key) rule nc, rmw_note [] rule nc)).
+  { rewrite rmw_rules_cons, Hnc. reflexivity. }
+  pose proof (rmw_step_ok s tbl key [rule] now coins t _ _ Hs Ht Hrules) as Hok.
+  destruct (step s (mkCall (BReadModifyWrite tbl key [rule]) now coins)) as [s' rsp]. cbn [fst].
+  destruct Hok as [Hs' [_ [_ [[t' [Ht' [Hf' [Hcm _]]]] _]]]]. split; [exact Hs'|].
+  pose proof (rmw_rule_spec (t_fams t) now rule (get_row t key) nc Hrow Hnc) as Spec. cbn zeta in Spec.
+  cbn [rule rule_target fst snd] in Spec. destruct Spec as [Hfs' [_ [_ [[Hdec [Hl8 _]] [[r1 Hhead] _]]]]].
+  rewrite Hcells in Hdec.
+  set (fs' := rmw_write (get_row t key) rule nc) in *.
+  pose proof (fams_ok_cells_desc fs' fam q Hfs') as Hd1. rewrite Hhead in Hd1.
+  destruct (newest_is_max _ _ Hd1) as [M1 M2].
+  pose proof (server_ok_lookup _ _ _ Hs' Ht') as Htok'.
+  pose proof (fams_ok_cells_desc _ fam q (table_ok_get_row_fams t' key Htok')) as Hd2.
+  assert (A1 : cell_lookup (CellSpec.cells_of (get_row t' key) fam q) (c_ts nc) = Some (c_val nc)).
+  { rewrite <- abs_cells_of, (Hcm fam q (c_ts nc)), abs_cells_of, Hhead. exact M1. }
+  assert (A2 : forall ts, cell_lookup (CellSpec.cells_of (get_row t' key) fam q) ts <> None -> ts <= c_ts nc).
+  { intros ts Hts. apply M2. rewrite <- Hhead, <- abs_cells_of, <- (Hcm fam q ts), abs_cells_of. exact Hts. }
+  destruct (CellSpec.cells_of (get_row t' key) fam q) as [|c' r'] eqn:El; [discriminate|].
+  destruct (newest_is_max _ _ Hd2) as [N1 N2].
+  assert (Ets : c_ts c' = c_ts nc).
+  { apply Z.le_antisymm; [apply A2; rewrite N1; discriminate|apply N2; rewrite A1; discriminate]. }
+  rewrite <- Ets, N1 in A1. injection A1 as Ev.
+  change (incr_value (c_val c0) 1) with (c_val nc) in Ev.
+  exists t', c', r'. rewrite Hf', El, Ev. repeat split; auto. rewrite Hdec, Hv. reflexivity.
+Qed.
+
+Lemma run_incrs tbl key fam q : forall calls s v, server_ok s -> counter_at s tbl key fam q v ->
+  Forall (is_incr tbl key fam q) calls ->
+  counter_at (fst (run s calls)) tbl key fam q (wrap64 (v + Z.of_nat (length calls))).
+Proof.
+  induction calls as [|c calls IH]; intros s v Hs Hc Hall.
+  - cbn [run fst length]. destruct Hc as [t [c0 [r0 [H1 [H2 [H3 [H4 H5]]]]]]]. exists t, c0, r0. repeat split; auto.
+    rewrite Z.add_0_r, <- H5. unfold be64_decode. rewrite wrap64_idem. reflexivity.
+  - inversion Hall as [|? ? Hc1 Hall1]; subst. rewrite run_cons. cbn [fst].
+    destruct (incr_step s tbl key fam q v c Hs Hc1 Hc) as [Hs1 Hc2].
+    specialize (IH _ _ Hs1 Hc2 Hall1). rewrite wrap64_add_l in IH.
+    replace (v + Z.of_nat (length (c :: calls))) with (v + 1 + Z.of_nat (length calls)) by (cbn [length]; lia). exact IH.
+Qed.
+
+Lemma filter_filter_imp {A} (p q : A -> bool) l : (forall x, p x = true -> q x = true) ->
+  filter p (filter q l) = filter p l.
+Proof.
+  intros H. induction l as [|x l IH]; [reflexivity|]. cbn [filter]. destruct (q x) eqn:Eq; cbn [filter].
+  - rewrite IH. reflexivity.
+  - destruct (p x) eqn:Ep; auto. rewrite (H x Ep) in Eq. discriminate.
+Qed.
+
+Lemma length_by_tid N : forall L : list event, (forall e, In e L -> (ev_tid e < N)%nat) ->
+  (forall j, (j < N)%nat -> length (lin_of j L) = 1%nat) -> length L = N.
+Proof.
+  induction N as [|N IH]; intros L Hlt H1.
+  - destruct L as [|e L]; auto. specialize (Hlt e (or_introl eq_refl)). lia.
+  - rewrite (filter_compl_length (fun e => Nat.eqb (ev_tid e) N) (fun e => negb (Nat.eqb (ev_tid e) N)) L)
+      by (intros x _; rewrite negb_involutive; reflexivity).
+    fold (lin_of N L). rewrite (H1 N) by lia. cbn [plus]. f_equal. apply IH.
+    + intros e He. apply filter_In in He. destruct He as [He Hne]. specialize (Hlt e He).
+      apply negb_true_iff, Nat.eqb_neq in Hne. lia.
+    + intros j Hj. unfold lin_of. rewrite filter_filter_imp; [apply H1; lia|].
+      intros x Hx. apply Nat.eqb_eq in Hx. apply negb_true_iff, Nat.eqb_neq. lia.
+Qed.
+
+Lemma init_threads_length s0 progs : length (cs_threads (init_cstate s0 progs)) = length progs.
+Proof. cbn. apply map_length. Qed.
+
+Lemma in_tag c n l : In (c, n) (tag l) -> In c l.
+Proof. induction l as [|x l IH]; cbn; [auto|]. intros [H|H]; [injection H as <- _; auto|auto]. Qed.
+
+(* (c) N threads, each one ReadModifyWrite "+1" on the same existing 8-byte counter: in any
+   schedule that lets them all finish the counter has grown by exactly N (mod 2^64) *)
+Theorem conc_increments_add_up : forall s0 tbl key fam q v0 progs sched,
+  server_ok s0 -> counter_at s0 tbl key fam q v0 ->
+  Forall (fun p => exists c, p = [c] /\ is_incr tbl key fam q c) progs ->
+  let st := fst (crun (init_cstate s0 progs) sched) in
+  (forall j, todo_at st j = []) ->
+  counter_at (cs_server st) tbl key fam q (wrap64 (v0 + Z.of_nat (length progs))).
+Proof.
+  intros s0 tbl key fam q v0 progs sched Hs Hc Hp st Hfin.
+  assert (Hng : no_gc_progs progs).
+  { eapply Forall_impl; [|exact Hp]. intros p [c [-> Hi]]. constructor; [|constructor]. unfold is_incr in Hi. rewrite Hi. reflexivity. }
+  pose proof (conc_serializable s0 progs sched Hng) as [S1 [_ T]]. cbn zeta in S1, T. fold st in S1, T.
+  set (L := lin_log (init_cstate s0 progs) sched) in *.
+  assert (Htags : forall j, map ev_tag (lin_of j L) = tag (nth j progs [])).
+  { intros j. destruct (T j) as [_ T3]. unfold unlin in T3. rewrite Hfin, skipn_nil in T3. cbn [tag] in T3.
+    rewrite app_nil_r in T3. exact T3. }
+  assert (Hnth : forall j, (j < length progs)%nat -> exists c, nth j progs [] = [c] /\ is_incr tbl key fam q c).
+  { intros j Hj. rewrite Forall_forall in Hp. apply Hp. apply nth_In. exact Hj. }
+  assert (Hlen : length L = length progs).
+  { apply length_by_tid.
+    - intros e He. apply lin_log_tid_lt in He. rewrite init_threads_length in He. exact He.
+    - intros j Hj. destruct (Hnth j Hj) as [c [Ec _]]. pose proof (f_equal (@length _) (Htags j)) as E.
+      rewrite map_length, Ec in E. exact E. }
+  rewrite <- S1, <- Hlen, <- (map_length ev_call L). apply run_incrs; auto.
+  rewrite Forall_forall. intros c Hin. apply in_map_iff in Hin. destruct Hin as [e [<- He]].
+  pose proof (lin_log_tid_lt _ _ _ He) as Hlt. rewrite init_threads_length in Hlt.
+  destruct (Hnth _ Hlt) as [c [Ec Hi]].
+  assert (Hin : In (ev_tag e) (map ev_tag (lin_of (ev_tid e) L))).
+  { apply in_map. unfold lin_of. apply filter_In. split; auto. apply Nat.eqb_refl. }
+  rewrite Htags, Ec in Hin. unfold ev_tag in Hin. apply in_tag in Hin. destruct Hin as [<-|[]]. exact Hi.
+Qed.
